@@ -147,6 +147,12 @@ def run(ctx):
                 if kw:
                     name = rng.choice(sorted(kw))
                     checked('__replace__', i, ty, x.__replace__, (), {name: kw[name]}, watch=[x, kw[name]])
+                # replacing a field the instance was NOT given (it holds its default): the new instance records it, the original does not
+                unset = [f.name for f in type(x).__pane_info__.fields if f.init and f.name not in x.__pane_set__]
+                if unset:
+                    name2 = rng.choice(sorted(unset))
+                    checked('__replace__(unset field)', i, ty, x.__replace__, (), {name2: getattr(x, name2)}, watch=[x])
+                    checked('__replace__(unset field, bad value)', i, ty, x.__replace__, (), {name2: object()}, watch=[x])
                 # the public unchecked constructors: the dict handed in (possibly omitting defaulted fields) stays as it was
                 fields = [f for f in type(x).__pane_info__.fields if f.init]
                 partial = {f.name: getattr(x, f.name) for f in fields if not (f.has_default() and rng.random() < 0.5)}
